@@ -48,7 +48,7 @@ def ob_hist_rules(m1: int, dom1: int, h1: int, m2: int, dom2: int, h2: int, pm1:
 
 # ------------------------------------------------------------------ API-level history / option pool
 
-POOL = ["tomorrow 8pm", "on the 31st", "12am", "9-5", "friday morning", "gargelbabel", "in 3 days", "8:30 h pm", "29.2.", "meet #tag monday"]
+POOL = ["tomorrow 8pm", "Zahnarzt Morgen 9 Uhr", "zahnarzt morgen 9 uhr", "9-5", "friday morning", "gargelbabel", "lunch on friday", "8:30 h pm", "29.2.", "meet #tag monday"]
 TS_POOL = [datetime(2018, 3, 7, 12, 43), datetime(2023, 1, 31, 23, 59, 59), datetime(2024, 2, 29, 0, 0)]
 DEPTHS = [0, 1, 10]
 
@@ -222,3 +222,37 @@ def ob_score_finite(ti: int, a: int, b: int, ma: int, mb: int, lr: int, final: b
         NS.math = old
     arg = (b - a) / len(txt)
     return (not stub.bad) and len(stub.args) == 1 and stub.args[0] == arg and 0 < arg <= 1 and v == want
+
+
+class _OrderModel:
+    """model stub whose answer depends on the order of the trace (a memo keyed by the bag of rules is wrong)"""
+
+    def __init__(self, a, b, a2, b2):
+        self.v = {True: (a, b), False: (a2, b2)}
+
+    def predict_log_proba(self, X):
+        return [self.v[X[0][0] == "100"]]
+
+
+def ob_score_hist(ma: int, mb: int, ma2: int, mb2: int, lr: int, final1: bool, final2: bool) -> bool:
+    """
+    pre: -1000 <= ma <= 0 and -1000 <= mb <= 0 and -1000 <= ma2 <= 0 and -1000 <= mb2 <= 0 and -1000 <= lr <= 0
+    post: _
+    """
+    txt = "ab cd"
+    m1, m2 = _frm(100, 0, 2), _frm(101, 3, 5)
+    pa = PP.PartialParse((m1, m2), (100, 101, "ruleX"))
+    pb = PP.PartialParse((m1, m2), (101, 100, "ruleX"))      # same bag of rules, other order
+    stub = _LogStub(lr)
+    old = NS.math
+    NS.math = stub
+    try:
+        sc = NS.NaiveBayesScorer(_OrderModel(ma, mb, ma2, mb2))
+        t = Time(hour=3)
+        t.mstart, t.mend = 0, 5
+        v1 = sc.score_final(txt, datetime(2020, 1, 1), pa, t) if final1 else sc.score(txt, datetime(2020, 1, 1), pa)
+        v2 = sc.score_final(txt, datetime(2020, 1, 1), pb, t) if final2 else sc.score(txt, datetime(2020, 1, 1), pb)
+        v3 = sc.score(txt, datetime(2020, 1, 1), pa)
+    finally:
+        NS.math = old
+    return v1 == (mb - ma) + (1000 if final1 else 1) * lr and v2 == (mb2 - ma2) + (1000 if final2 else 1) * lr and v3 == (mb - ma) + lr
